@@ -43,13 +43,14 @@ SPEEDS = (1e-5, 3e-5, 1e-4, 3e-4, 1e-3)  # simulated seconds per traced line
 START_DELAYS = (0.0, 0.0, 0.003, 0.05, 0.19, 0.35)
 RTTS = (0.0, 0.0, 1e-4, 1e-3, 1e-2, 1e-1)
 ITEM_COSTS = (0.0, 0.0, 1e-6, 1e-5)
-FORK_COSTS = (0.0, 0.0, 1e-3, 1e-2, 5e-2)  # simulated seconds the parent spends in one Process.start()  # simulated seconds per element of a delivered list (pickling, transfer)  # simulated seconds per manager round trip
+FORK_COSTS = (0.0, 0.0, 1e-3, 1e-2, 5e-2)
+SYSCALL_COSTS = (0.0, 0.0, 1e-5, 1e-4, 1e-3)  # simulated seconds per is_alive() / kill() of the parent  # simulated seconds the parent spends in one Process.start()  # simulated seconds per element of a delivered list (pickling, transfer)  # simulated seconds per manager round trip
 
 
 class World:
     """Per-run process table and configuration shared by the stand-ins."""
 
-    def __init__(self, sim, ncpu=4, shared=(), speeds=SPEEDS, start_delays=START_DELAYS, rtt=0.0, item_cost=0.0, fork_cost=0.0):
+    def __init__(self, sim, ncpu=4, shared=(), speeds=SPEEDS, start_delays=START_DELAYS, rtt=0.0, item_cost=0.0, fork_cost=0.0, syscall_cost=0.0):
         self.sim = sim
         self.ncpu = ncpu
         self.shared = list(shared)  # objects memo-shared (read-only) with workers
@@ -58,6 +59,8 @@ class World:
         self.rtt = rtt
         self.item_cost = item_cost
         self.fork_cost = fork_cost
+        # with very many workers a millisecond per call would alone eat the slack of the deadline bound
+        self.syscall_cost = syscall_cost if ncpu <= 40 else min(syscall_cost, 1e-4)
         self.procs = []
         self.managers = []
         self.next_pid = 1001
@@ -158,7 +161,7 @@ class SimProcess:
         sim.check_alive()
         if not self.started:
             return False
-        sim.yield_(0.0, "is_alive")
+        sim.yield_(self._w.syscall_cost, "is_alive")
         self._update_exit()
         return not self.task.done
 
@@ -518,7 +521,7 @@ def sim_kill(pid, sig):
         return
     if sig in (_signal.SIGKILL, _signal.SIGTERM, _signal.SIGINT):
         sim.kill(p.task, "os.kill")
-        sim.yield_(0.0, "kill-sent")
+        sim.yield_(w.syscall_cost, "kill-sent")
         return
     raise UnsupportedSeam("signal %r is not simulated" % (sig,))
 
